@@ -59,6 +59,8 @@ def run(res, replay=None):
             if i in (1, 3):
                 nd = 1
             n = rng.choice([2, 3] if (nd == 2 or res.tier == 'quick') else [2, 3, 4])
+            if i == 5:
+                nd, n = 2, 3        # designed: two demes with three samples (same-class mergers must count the lineages of ONE deme)
             s = gen.rand_spec(rng, n_total=n, n_demes=nd, n_epochs=rng.choice([1, 2]), loci=2)
             s['recombination_rate'] = rng.choice([0.0, 0.25, 0.5, 1.0, 4.0, 1024.0])
             s['n_unlinked'] = rng.randrange(0, n + 1) if nd == 1 else 0
@@ -74,6 +76,10 @@ def run(res, replay=None):
             if i == 3:
                 s['n_unlinked'] = 0
                 s['recombination_rate'] = 0.0
+            if i == 5:
+                s['recombination_rate'] = rng.choice([0.5, 1.0])
+                pp = [p for p, _ in s['n_items']]
+                s['n_items'] = [[pp[0], 2], [pp[1], 1]]
             specs.append(s)
     items = [dict(spec=s, lc=True, ops=build_ops(rng, s)) for s in specs]
     results = N.run_items(res, 'C06', 'twolocus', items, what='two-locus statistic differs from the ARG value (model)')
